@@ -996,7 +996,7 @@ fn run_escape_case(case: &str, text: &str) {
 // command lines, same printed form of every line, or a syntax error on both sides.
 
 const L_WORDS: &[&str] = &["a", "b1", "echo", "'q x'", "\"d $x\"", "$x", "${y:-z}", "${#v}", "\\;", "-n", "foo", "2", "x", "a\\\nb", "\"\"", "$1", "${z%.*}", "c\\ d", "in", "do"];
-const L_REDIRS: &[&str] = &[">f", "2>&1", "<in", ">>o", ">|c", "<>rw", "<&3", "> g", "2> e", "<<<s"];
+const L_REDIRS: &[&str] = &[">f", "2>&1", "<in", ">>o", ">|c", "<>rw", "<&3", "> g", "2> e", "<<<s", ">f", "2>&1", "<in", ">>o", "2147483647>f", "10<&-", ">&2", ">>|p"];
 const L_TOKENS: &[&str] = &["if", "then", "elif", "else", "fi", "while", "until", "do", "done", "for", "in", "case", "esac", "{", "}", "!", ";", "&", "|", "&&", "||", "(", ")", ";;", ";&", ";|", ";;&", "\n", ">", "<", "x=1", "a", "function", "[[", "select", "#c", "2>", "1"];
 
 struct LG {
@@ -1010,7 +1010,9 @@ impl LG {
     fn simple(&mut self) -> String {
         let mut parts: Vec<String> = vec![];
         if self.rng.chance(1, 5) {
-            parts.push(self.rng.pick(&["x=1", "a=b c=", "v='1 2'", "n=$x"]).to_string());
+            let bad = if self.rng.chance(1, 4) { *self.rng.pick(&["x= (", "y=(a", "z=(a;b)", "w=(1 <f)", "u=(2>f)", "t=(a)b"]) } else { "x=1" };
+            let pool = ["x=1", "a=b c=", "v='1 2'", "n=$x", "r=(1 2)", "e=()", "m=(a\n'b c' $x\n)", "k=( in do )", "p=(a) q=(b c)", "x=1", "a=b c=", "r=(1 2)", "e=()", "v=(\"$@\")", "p=(a) q=(b c)", "x=1", bad];
+            parts.push(self.rng.pick(&pool).to_string());
         }
         if self.rng.chance(1, 8) {
             parts.push(self.rng.pick(L_REDIRS).to_string());
@@ -1023,6 +1025,10 @@ impl LG {
         }
         if self.rng.chance(1, 4) {
             parts.push(self.rng.pick(L_REDIRS).to_string());
+        }
+        if self.rng.chance(1, 400) {
+            // `FdOutOfRange`: one above `i32::MAX`
+            parts.push(self.rng.pick(&["2147483648>f", "2147483648<f", "99999999999>>o"]).to_string());
         }
         parts.join(if self.rng.chance(1, 10) { "  " } else { " " })
     }
